@@ -132,10 +132,6 @@ pub fn load_batch(a: &mut EmmyLuaAnalysis, files: &[WsFile]) -> Vec<FileId> {
     a.update_files_by_uri(files.iter().map(|f| (uri_of(&f.name), Some(f.text.clone()))).collect())
 }
 
-pub fn file_id(a: &EmmyLuaAnalysis, name: &str) -> Option<FileId> {
-    a.get_file_id(&uri_of(name))
-}
-
 pub const NAME_PROBES: &[&str] = &["G", "H", "K", "gf", "gh", "Foo", "Bar", "Baz", "En", "Color", "Al", "Id", "a", "b", "c", "m", "n", "A", "B"];
 
 /// dump used by the history checks C08-C10 (mismatch explanations stripped, see `DumpOpts`)
